@@ -35,6 +35,10 @@ def plan(tier):
         pl += [(PG.reusable_resize(2, 3, 0.05), 2, dict(kinds=("T", "K"))),
                (PG.reusable_resize(2, 1, None), 2, dict(kinds=("P", "K"))),
                (PG.resize_inflight(2, 1, None, 1), 2, dict(kinds=("P",)))]
+    # source-line granularity (one preemption at any line of loky run by a parent thread)
+    pl += simcheck.line_plan([PG.reusable_resize(2, 3, None), PG.resize_inflight(2, 1, None, 2)])
+    if tier == "thorough":
+        pl += simcheck.line_plan([p for p, _, _ in pl])
     return pl
 
 
